@@ -454,7 +454,7 @@ def run(ctx):
     part = core.fan_out(ctx, _chunk, jobs)
     part.merge(core.fan_out(ctx, _wall_chunk, core.split(wall_sets(), 16)))
     big_jobs = [(paths, bins, reverse, kind) for paths in big_layouts(ctx)
-                for bins in (3, 6, 10, 13) for reverse in (False, True)
+                for bins in (1, 2, 3, 6, 10, 13) for reverse in (False, True)
                 for kind in ("up", "down", "stride")]
     # paths so short that their squared length underflows to zero although their ends differ
     # (2^-538 units long; squared distances of 2^-531-unit queries are subnormal but distinct):
@@ -534,9 +534,31 @@ def replay(case):
         return []
     paths = tuple((tuple(p[0]), tuple(p[1])) for p in case["paths"])
     part = core.Part()
-    if case["query"] is None:
+    if case["query"] is None and len(paths) <= 5:
         explore_index(paths, case["bins"], case["reverse"], [], part)
         return [v["msg"] for v in part.violations]
+    if case["query"] is None:
+        # a large index: the recorded removal sequence itself (all orders of 150 paths cannot be
+        # enumerated) - construction and every remove_path() must go through
+        try:
+            condition()
+        except ConditioningFailed as exc:
+            return [COND_DESC + str(exc)]
+        desc = f"Index(<{len(paths)} paths>, {case['bins']}, {case['reverse']})"
+        try:
+            index = spatial_grid.Index([[list(p[0]), list(p[1])] for p in paths], case["bins"],
+                                       case["reverse"])
+        except Exception as exc:            # pylint: disable=broad-except
+            return [f"{desc} could not be built: {type(exc).__name__}: {exc}"]
+        done = []
+        for victim in case["removals"]:
+            try:
+                index.remove_path(victim)
+            except Exception as exc:        # pylint: disable=broad-except
+                return [f"{desc}: remove_path({victim}) after {len(done)} removals raised "
+                        f"{type(exc).__name__}: {exc}"]
+            done.append(victim)
+        return []
     try:
         condition()                                                             # as in exploration
     except ConditioningFailed as exc:
